@@ -27,13 +27,19 @@ def run_request(E, st, base=WIRE, policy=None, memory_limit=None, twin_encode=Fa
     """execute one frame located at wire offset 0 of array `base`"""
     H = Hdr(0)
     w = World(E, st, policy, memory_limit)
-    w.map.key_resolver = lambda E, keyval: 0
+    keys_seen = []
+
+    def resolver(E, keyval):
+        keys_seen.append(keyval)
+        return 0
+    w.map.key_resolver = resolver
     src = E.alloc(Buf(base, BV(0), total, None))
     codec = E.alloc(new_codec(limit))
     decode = E.fn('<MemcacheBinaryCodec as Decoder>', 'decode')
     x = Exec()
     x.w = w
     x.world = w
+    x.keys_seen = keys_seen
     E.panic_out = lambda: x
     x.stage = 'decode'
     r = E.call(decode, [Ref(codec), Ref(src)])
